@@ -4,18 +4,18 @@
 import sys, json, os, shutil, subprocess
 prop, L, needs, results = sys.argv[1:5]
 wt = sys.argv[5] if len(sys.argv) > 5 else f"/tmp/wt/{prop}"
-d = f"/verif/seeded/{prop}-{L}"
+R = os.environ.get("ROUND", ""); d = f"/verif/seeded/{prop}-{R}{L}"
 os.makedirs(d, exist_ok=True)
 shutil.copy(f"{wt}/MUTATION/{L}.diff", f"{d}/patch.diff")
 shutil.copy(f"{wt}/MUTATION/{L}_demo_test.go", f"{d}/demo_test.go")
 shutil.copy(f"{wt}/MUTATION/README.md", f"{d}/AGENT_README.md")
 base = subprocess.check_output(["git","-C","/repo","log","--format=%h","-1"]).decode().strip()
 meta = {
- "id": f"{prop}-{L}", "breaks_property": prop, "needs_to_manifest": needs,
+ "id": f"{prop}-{R}{L}", "breaks_property": prop, "needs_to_manifest": needs,
  "origin": "fresh sub-agent given only the property text and a scratch worktree; nothing from /verif",
  "confirmed_by_me": "confirm_mut.sh in the scratch worktree: builds (default, cmd/gtree, tinywasm, verif), pinned 57-test suite passes, demo FAILS with the patch and PASSES without it",
  "applies_to_repo_commit": base,
- "ran": f"./try_mut.sh seeded/{prop}-{L}/patch.diff <checks> (git -C /repo apply; ./run.sh check <ID> --tier quick with VERIF_OUT redirected; git -C /repo checkout -- .)",
+ "ran": f"./try_mut.sh seeded/{prop}-{R}{L}/patch.diff <checks> (git -C /repo apply; ./run.sh check <ID> --tier quick with VERIF_OUT redirected; git -C /repo checkout -- .)",
  "check_results": results,
 }
 json.dump(meta, open(f"{d}/meta.json","w"), indent=1)
